@@ -56,4 +56,79 @@ theorem trunc_toward_zero (q : Rat) :
     (q ≤ 0 → q ≤ (truncToInt q : Rat) ∧ (truncToInt q : Rat) - 1 < q) := by
   exact truncToInt_bounds q
 
+/-! ### consequences: the cleaned frame is clean, cleaning twice is cleaning once (every frame, every value) -/
+theorem fillNa_idempotent (f : Frame) (v : Cell) : (f.fillNa v).fillNa v = f.fillNa v := by
+  unfold Frame.fillNa
+  rw [List.map_map]
+  apply List.map_congr_left
+  intro kc _
+  simp only [Function.comp, List.map_map]
+  congr 2
+  apply List.map_congr_left
+  intro c _
+  simp only [Function.comp]
+  cases hc : c.isNil <;> simp [hc]
+
+theorem fillNa_no_nil (f : Frame) (v : Cell) (hv : v ≠ .nil) :
+    ∀ kc ∈ f.fillNa v, ∀ c ∈ kc.2.data, c ≠ .nil := by
+  intro kc hkc c hc
+  unfold Frame.fillNa at hkc
+  obtain ⟨kc0, _, rfl⟩ := List.mem_map.mp hkc
+  simp only [List.mem_map] at hc
+  obtain ⟨c0, _, rfl⟩ := hc
+  cases c0 <;> simp [Cell.isNil, hv]
+
+theorem fillNa_shape (f : Frame) (v : Cell) {n : Nat} (hr : f.RectN n) :
+    (f.fillNa v).keys = f.keys ∧ (f.fillNa v).RectN n := by
+  constructor
+  · unfold Frame.fillNa Frame.keys; simp [List.map_map, Function.comp]
+  · intro kc hkc
+    unfold Frame.fillNa at hkc
+    obtain ⟨kc0, h0, rfl⟩ := List.mem_map.mp hkc
+    have := hr kc0 h0
+    simpa using this
+
+theorem fillNa_clean_id (f : Frame) (v : Cell) (h : ∀ kc ∈ f, ∀ c ∈ kc.2.data, c ≠ .nil) :
+    f.fillNa v = f := by
+  unfold Frame.fillNa
+  conv => rhs; rw [← List.map_id f]
+  apply List.map_congr_left
+  intro kc hkc
+  have : kc.2.data.map (fun c => if c.isNil then v else c) = kc.2.data := by
+    conv => rhs; rw [← List.map_id kc.2.data]
+    apply List.map_congr_left
+    intro c hc
+    have := h kc hkc c hc
+    cases c <;> simp_all [Cell.isNil]
+  simp [this]
+
+theorem dropNaSpec_no_nil {f : Frame} (hs : f.Sorted) :
+    ∀ kc ∈ Spec.dropNaSpec f, ∀ c ∈ kc.2.data, c ≠ .nil := by
+  intro kc hkc c hc
+  unfold Spec.dropNaSpec Spec.ofRows at hkc
+  obtain ⟨k, hk, rfl⟩ := List.mem_map.mp hkc
+  simp only [List.mem_map, List.mem_filter] at hc
+  obtain ⟨r, ⟨hr, hall⟩, rfl⟩ := hc
+  unfold Spec.rowsOf at hr
+  obtain ⟨i, _, rfl⟩ := List.mem_map.mp hr
+  unfold Frame.keys at hk
+  obtain ⟨kc0, hkc0, rfl⟩ := List.mem_map.mp hk
+  have hg := Row.getD_rowMap_of_mem hs (k := kc0.1) (c := kc0.2) hkc0 i
+  rw [hg]
+  have hmem : (kc0.1, kc0.2.data.getD i .nil) ∈ f.rowMap i := by
+    unfold Frame.rowMap
+    exact List.mem_map.mpr ⟨kc0, hkc0, rfl⟩
+  have := (List.all_eq_true.mp hall) _ hmem
+  simpa using this
+
+theorem dropNa_no_nil {f f' : Frame} {n : Nat} (hs : f.Sorted) (hr : f.RectN n) (h : f.dropNa = .ok f') :
+    ∀ kc ∈ f', ∀ c ∈ kc.2.data, c ≠ .nil := by
+  rw [dropNa_eq hs hr] at h
+  cases h
+  exact dropNaSpec_no_nil hs
+
+/-- non-vacuity: a frame with a nil in each position class is filled, and dropping keeps the clean row -/
+example : (Frame.fillNa [([97], { name := [97], data := [.nil, .int .int 2] })] (.int .int 0)) =
+    [([97], { name := [97], data := [.int .int 0, .int .int 2] })] := by decide
+
 end Goframe.C15
